@@ -4,6 +4,9 @@ from engine.qb import (cmp_forms, AnalysisBroken, estr, unwrap, cval, walk, last
 from rules.common import field_is, has_call, value_sources, some_source, derives, macro_named
 
 UNITS = ['lib/loop_timerlist.c', 'lib/loop.c', 'lib/loop_job.c', 'lib/loop_poll.c', 'lib/loop_poll_epoll.c']
+TECHNIQUE = ('static analysis: custom clang-LibTooling CFG/dataflow rules - interval analysis of the timeout value chain (conversions anywhere in the '
+             'returned expression, refined by ?: conditions), reaching definitions, edge cut-sets, type facts of the time variables, finite abstract '
+             'evaluation of the run loop')
 DECIDES = ('Decides that no narrowing conversion on the way from the timer heap to the kernel poll timeout can turn a pending '
            'expiry into a negative ("forever") or wrapped timeout, that every timeout the loop may block with is timer-derived, '
            'that expiry is decided against a clock value read in the same call with consistent units, and that the state queries '
